@@ -29,13 +29,13 @@ RULE = (
     "one run = one configuration: sphere radius r1 in [0.05, 60], frustum far radius r2 (smaller, equal, "
     "within 1e-7, larger), height h (shorter than / equal to / longer than r1, cone inside the sphere, "
     "cylinder), second sphere radius and centre distance (disjoint, tangent outside, overlapping, tangent "
-    "inside, nested, concentric), cap heights in [0, 2r]; a rotation and offset placing it anywhere in space; "
+    "inside, nested, concentric), cap heights in [0, 2r]; the frustum axis along a special exact direction (coordinate axes, face and space diagonals) or a generic unit vector, and an offset, placing it anywhere in space; "
     "evaluated under 4-6 RNG schedules (two seeds; first draw parallel, antiparallel, nearly parallel at 2e-5, "
     "axis-aligned, with the guard's redraw then taken from the seeded stream). Calls per schedule on fresh "
     "objects: sphere, cap x3, frustum, sphere&sphere intersect/union (both orders), sphere&frustum "
     "intersect/union with the sphere at the near end and at the far end, frustum.union(sphere). "
-    "Distinct = distinct event-log digest; non-trivial = r2 < r1 (the branch that consults the RNG) and at "
-    "least one injected draw fired."
+    "Distinct = distinct event-log digest; non-trivial = r2 < r1 (the branch that consults the RNG) evaluated "
+    "under >= 2 schedules."
 )
 STATE_MEASURE = "distinct (taper class, height class, two-sphere class, schedule kind) tuples"
 COMPONENTS = {
@@ -57,18 +57,20 @@ ASSUMPTIONS = [
 # generation
 
 
-def gen_rotation(rng: Prng) -> list:
-    """A rotation as unit quaternion components (w, x, y, z)."""
-    k = rng.below(6)
-    if k == 0:
-        return [1.0, 0.0, 0.0, 0.0]
-    if k == 1:  # axis aligned with +x/+y/+z/-x...
-        return rng.choice([[0.7071067811865476, 0.0, 0.7071067811865476, 0.0],
-                           [0.7071067811865476, 0.7071067811865476, 0.0, 0.0],
-                           [0.0, 1.0, 0.0, 0.0], [0.0, 0.0, 1.0, 0.0]])
-    q = [rng.uniform(-1, 1) for _ in range(4)]
-    n = math.sqrt(sum(v * v for v in q)) or 1.0
-    return [v / n for v in q]
+S3, S2 = 0.5773502691896258, 0.7071067811865476
+SPECIAL_AXES = [[1.0, 0.0, 0.0], [0.0, 1.0, 0.0], [0.0, 0.0, 1.0], [-1.0, 0.0, 0.0], [0.0, -1.0, 0.0], [0.0, 0.0, -1.0],
+                [S3, S3, S3], [-S3, -S3, -S3], [S3, -S3, S3], [-S3, S3, S3], [S2, S2, 0.0], [0.0, S2, S2], [S2, 0.0, -S2],
+                [0.6, 0.8, 0.0], [0.0, -0.6, 0.8]]
+
+
+def gen_axis(rng: Prng) -> list:
+    """Direction of the frustum axis: special exact directions (coordinate axes, face and space diagonals -
+    where a deterministic choice of helper vector degenerates) or a generic unit vector."""
+    if rng.chance(0.45):
+        return list(rng.choice(SPECIAL_AXES))
+    v = [rng.uniform(-1, 1) for _ in range(3)]
+    n = math.sqrt(sum(x * x for x in v)) or 1.0
+    return [x / n for x in v]
 
 
 def gen_config(rng: Prng) -> dict:
@@ -116,8 +118,9 @@ def gen_config(rng: Prng) -> dict:
         d = 0.0
     caps = [rng.choice([0.0, 1.0, 2.0, 0.5, rng.uniform(0, 2)]) for _ in range(3)]  # fractions of r1
     return {"r1": r1, "r2": r2, "h": h, "rb": rb, "d": d, "caps": caps, "taper": taper, "hk": hk, "dk": dk,
-            "quat": gen_rotation(rng), "offset": [round(rng.uniform(-500, 500), 3) for _ in range(3)] if rng.chance(0.7)
-            else [0.0, 0.0, 0.0]}
+            "axis": gen_axis(rng), "dir2": gen_axis(rng),
+            "offset": rng.choice([[0.0, 0.0, 0.0], [0.0, 0.0, 0.0], [8.0, -16.0, 32.0]]) if rng.chance(0.5)
+            else [round(rng.uniform(-500, 500), 3) for _ in range(3)]}
 
 
 def gen_schedule(rng: Prng) -> dict:
@@ -145,15 +148,6 @@ def generate(rng: Prng, tier: str) -> dict:
 # execution
 
 
-def quat_rotate(q, v):
-    w, x, y, z = q
-    # rotation matrix from unit quaternion
-    m = [[1 - 2 * (y * y + z * z), 2 * (x * y - z * w), 2 * (x * z + y * w)],
-         [2 * (x * y + z * w), 1 - 2 * (x * x + z * z), 2 * (y * z - x * w)],
-         [2 * (x * z - y * w), 2 * (y * z + x * w), 1 - 2 * (x * x + y * y)]]
-    return [sum(m[i][j] * v[j] for j in range(3)) for i in range(3)]
-
-
 def reference(cfg: dict) -> dict:
     r1, r2, h, rb, d = cfg["r1"], cfg["r2"], cfg["h"], cfg["rb"], cfg["d"]
     S1, F = vm.sphere(0.0, r1), vm.frustum(0.0, r1, h, r2)
@@ -178,11 +172,12 @@ def evaluate(cfg: dict) -> dict:
     """All closed-form calls on fresh objects, placed in space."""
     from swcgeom.utils import VolFrustumCone, VolSphere
 
-    q, off = cfg["quat"], cfg["offset"]
-    axis = quat_rotate(q, [0.0, 0.0, 1.0])
+    off = cfg["offset"]
+    axis = cfg["axis"]
     c1 = np.array(off, dtype=np.float64)
     c2 = c1 + cfg["h"] * np.array(axis)
-    cb = c1 + cfg["d"] * np.array(quat_rotate(q, [0.6, 0.0, 0.8]))
+    d2 = np.array(cfg["dir2"], dtype=np.float64)
+    cb = c1 + cfg["d"] * d2 / np.linalg.norm(d2)
     r1, r2, rb = cfg["r1"], cfg["r2"], cfg["rb"]
     out = {}
     out["sphere"] = VolSphere(c1, r1).get_volume()
@@ -260,8 +255,7 @@ def execute(program: dict) -> dict:
         try:
             for si, s in enumerate(program["schedules"]):
                 steps += 1
-                q_axis = quat_rotate(cfg["quat"], [0.0, 0.0, 1.0])
-                install_schedule(world, s, q_axis)
+                install_schedule(world, s, cfg["axis"])
                 before = world.rng_draws
                 try:
                     got, _ = evaluate(cfg)
@@ -302,7 +296,9 @@ def execute(program: dict) -> dict:
         faults = dict(world.faults)
         probes = dict(world.probes)
         digest = world.digest()
-    nontrivial = cfg["r2"] < cfg["r1"] and faults.get("rng_draw_replaced", 0) > 0
+    # by configuration, not by observed draws: a correct implementation that consults no RNG must not turn the
+    # batch "trivial" (fired injections are reported separately under fault_fired)
+    nontrivial = cfg["r2"] < cfg["r1"] and len(program["schedules"]) >= 2
     return {"violation": violation, "digest": digest, "steps": steps, "faults": faults, "probes": probes,
             "nontrivial": nontrivial, "config": program.get("config", "fault_free"), "states": states}
 
@@ -313,8 +309,9 @@ def execute(program: dict) -> dict:
 def shrink_candidates(program: dict):
     yield from shrink.drop_from_list(program, ["schedules"], min_len=1)
     cfg = program["cfg"]
-    if cfg["quat"] != [1.0, 0.0, 0.0, 0.0]:
-        yield shrink.with_value(program, ["cfg", "quat"], [1.0, 0.0, 0.0, 0.0])
+    for key in ("axis", "dir2"):
+        if cfg[key] != [0.0, 0.0, 1.0]:
+            yield shrink.with_value(program, ["cfg", key], [0.0, 0.0, 1.0])
     if cfg["offset"] != [0.0, 0.0, 0.0]:
         yield shrink.with_value(program, ["cfg", "offset"], [0.0, 0.0, 0.0])
     for key, simple in (("r1", 1.0), ("rb", 1.0), ("d", 0.0), ("d", 1.0), ("h", 1.0), ("h", 2.0), ("r2", 0.5), ("r2", 1.0)):
